@@ -774,6 +774,20 @@ def comment_deletion_pairs(exe, rnd, n, verdict):
                 sc += ["rm %s" % hx(T_), "file %s %s" % (hx(T_ + "/usr/etc/cfg.conf"), hx(vendor)), "file %s %s" % (hx(T_ + "/etc/cfg.conf.d/x.conf"), hx("\n".join(lines) + "\n")),
                        "readdirs %d %s %s %s %s %s %s" % (h, hx(T_ + "/usr/etc"), hx(T_ + "/etc"), hx("cfg"), hx("conf"), hx(D), hx(C)), "dump %d" % h, "free %d" % h]
                 continue
+            if i % 5 == 3:
+                # through econf_readConfig: read TWICE into the same variable (the second call gets the first result handed in), resp.
+                # into an option object whose tags for WRITING were chosen beforehand (the last character of each set): what the
+                # object carries says nothing about which lines of the files are comments - the sets given to the call do
+                T_ = "%s/q%d" % (R, h)
+                sc += ["rm %s" % hx(T_), "file %s %s" % (hx(T_ + "/usr/vfprj5/cfg.conf"), hx("\n".join(lines) + "\n"))]
+                rdc = "readconfig %d %s %s %s %s %s %s" % (h, hx("vfprj5"), hx(T_ + "/usr"), hx("cfg"), hx("conf"), hx(D), hx(C))
+                if i % 10 == 3:
+                    sc += [rdc, rdc]
+                else:
+                    sc += ["newopt %d %s" % (h, hx("PARSING_DIRS=" + T_ + "/usr/vfprj5")), "settags %d %s %s" % (h, hx(D[-1]), hx(C[-1])),
+                           "readconfig %d - - %s %s %s %s" % (h, hx("cfg"), hx("conf"), hx(D), hx(C))]
+                sc += ["dump %d" % h, "free %d" % h]
+                continue
             sc += ["file %s %s" % (hx("%s/f%d.conf" % (R, h)), hx("\n".join(lines) + "\n")),
                    "readfile %d %s %s %s" % (h, hx("%s/f%d.conf" % (R, h)), hx(D), hx(C)), "dump %d" % h, "free %d" % h]
         cases.append((i, sc))
@@ -786,8 +800,13 @@ def comment_deletion_pairs(exe, rnd, n, verdict):
         if out is None or out["crash"]:
             verdict.violation("C05:deletion:crash", dict(case, crash=(out or {}).get("crash")), "reading crashed on\n%s\n%s" % ("\n".join(withc), (out or {}).get("crash", "")[:600]))
             continue
-        rd = [e for e in out["ev"] if e["op"] in ("readfile", "readdirs")]
-        dm = [e for e in out["ev"] if e["op"] == "dump"]
+        rd, dm, lastrd = [], [], None
+        for e in out["ev"]:        # the read in front of each dump
+            if e["op"] in ("readfile", "readdirs", "readconfig"):
+                lastrd = e
+            elif e["op"] == "dump":
+                rd.append(lastrd or {"rc": "?"})
+                dm.append(e)
         obs = [(r["rc"], (d.get("st") or {}).get("groups"), [(s_["g"], [(k["k"], k["v"]) for k in s_["keys"]]) for s_ in (d.get("st") or {}).get("secs", [])]) for r, d in zip(rd, dm)]
         if len(obs) != 2 or obs[0] != obs[1]:
             short = [ln if len(ln) < 200 else ln[:60] + "...(%d bytes)" % len(ln) for ln in withc]
